@@ -11,7 +11,7 @@ import (
 
 func main() {
 	if len(os.Args) < 2 {
-		fmt.Fprintln(os.Stderr, "usage: tlsrec <padding-replay|padding-sweep|record-run|msg-run>")
+		fmt.Fprintln(os.Stderr, "usage: tlsrec <padding-replay|padding-sweep|padding-record|record-run|msg-run>")
 		os.Exit(2)
 	}
 	defer vh.Flush()
@@ -20,6 +20,8 @@ func main() {
 		paddingReplay()
 	case "padding-sweep":
 		paddingSweep()
+	case "padding-record":
+		paddingRecord()
 	case "record-run":
 		recordRun()
 	case "msg-run":
